@@ -88,7 +88,7 @@ package authenticators
 // (conf is the function's local decode target; its value at exit is what the decoder produced)
 
 //@ func (*jwtAuthenticator).WithConfig
-//@   props C04 C05
+//@   props C10 C04 C05
 //@   ensures ret1 == nil && old(len(config)) != 0 ==> merge.n == old(merge.n) + 1 && merge.arg1[old(merge.n)] == old(a.a) && unbox(ret0, *jwtAuthenticator).a == merge.ret0[old(merge.n)]
 //@   ensures ret1 == nil && old(len(config)) != 0 && conf.Assertions.ScopesMatcher == nil ==> unbox(ret0, *jwtAuthenticator).a.ScopesMatcher == old(a.a.ScopesMatcher)
 //@   ensures ret1 == nil && old(len(config)) != 0 && len(conf.Assertions.Audiences) == 0 ==> unbox(ret0, *jwtAuthenticator).a.Audiences == old(a.a.Audiences)
@@ -97,18 +97,27 @@ package authenticators
 //@   ensures old(len(config)) == 0 ==> ret1 == nil && unbox(ret0, *jwtAuthenticator) == a
 //@   ensures ret1 == nil && old(len(config)) != 0 && conf.AllowFallbackOnError != nil ==> unbox(ret0, *jwtAuthenticator).allowFallbackOnError == *conf.AllowFallbackOnError
 //@   ensures ret1 == nil && old(len(config)) != 0 && conf.AllowFallbackOnError == nil ==> unbox(ret0, *jwtAuthenticator).allowFallbackOnError == old(a.allowFallbackOnError)
+// C10: a rule-level cache_ttl, when given, is the TTL in force (0s switches caching off)
+//@   ensures ret1 == nil && old(len(config)) != 0 && conf.CacheTTL != nil ==> unbox(ret0, *jwtAuthenticator).ttl == conf.CacheTTL
+//@   ensures ret1 == nil && old(len(config)) != 0 && conf.CacheTTL == nil ==> unbox(ret0, *jwtAuthenticator).ttl == old(a.ttl)
 
 //@ func (*genericAuthenticator).WithConfig
-//@   props C04
+//@   props C04 C10
 //@   ensures old(len(config)) == 0 ==> ret1 == nil && unbox(ret0, *genericAuthenticator) == a
 //@   ensures ret1 == nil && old(len(config)) != 0 && conf.AllowFallbackOnError != nil ==> unbox(ret0, *genericAuthenticator).allowFallbackOnError == *conf.AllowFallbackOnError
 //@   ensures ret1 == nil && old(len(config)) != 0 && conf.AllowFallbackOnError == nil ==> unbox(ret0, *genericAuthenticator).allowFallbackOnError == old(a.allowFallbackOnError)
+// C10: a rule-level cache_ttl, when given, is the TTL in force (0s switches caching off)
+//@   ensures ret1 == nil && old(len(config)) != 0 && conf.CacheTTL != nil ==> unbox(ret0, *genericAuthenticator).ttl == *conf.CacheTTL
+//@   ensures ret1 == nil && old(len(config)) != 0 && conf.CacheTTL == nil ==> unbox(ret0, *genericAuthenticator).ttl == old(a.ttl)
 
 //@ func (*oauth2IntrospectionAuthenticator).WithConfig
-//@   props C04
+//@   props C10 C04
 //@   ensures old(len(rawConfig)) == 0 ==> ret1 == nil && unbox(ret0, *oauth2IntrospectionAuthenticator) == a
 //@   ensures ret1 == nil && old(len(rawConfig)) != 0 && conf.AllowFallbackOnError != nil ==> unbox(ret0, *oauth2IntrospectionAuthenticator).allowFallbackOnError == *conf.AllowFallbackOnError
 //@   ensures ret1 == nil && old(len(rawConfig)) != 0 && conf.AllowFallbackOnError == nil ==> unbox(ret0, *oauth2IntrospectionAuthenticator).allowFallbackOnError == old(a.allowFallbackOnError)
+// C10: a rule-level cache_ttl, when given, is the TTL in force (0s switches caching off)
+//@   ensures ret1 == nil && old(len(rawConfig)) != 0 && conf.CacheTTL != nil ==> unbox(ret0, *oauth2IntrospectionAuthenticator).ttl == conf.CacheTTL
+//@   ensures ret1 == nil && old(len(rawConfig)) != 0 && conf.CacheTTL == nil ==> unbox(ret0, *oauth2IntrospectionAuthenticator).ttl == old(a.ttl)
 
 //@ func (*basicAuthAuthenticator).WithConfig
 //@   props C04
